@@ -498,6 +498,15 @@ func (x *Exec) doAppend(st *State, s, t *Val, stype, ttype types.Type, pos token
 	n = x.lenOf(t)
 	newLen := x.bind(st, Add(s.Len, n), "alen")
 	fits := Le(newLen, s.Cap)
+	if !fits.isTrue() && !fits.isFalse() && x.inQuant == 0 {
+		// decide the capacity question now when the path condition settles it: the result is
+		// then a plain in-place write (or a plain copy) instead of an ite of both
+		if x.sess.CheckWith(Not(fits)) == Unsat {
+			fits = TTrue
+		} else if x.sess.CheckWith(fits) == Unsat {
+			fits = TFalse
+		}
+	}
 	newRef := x.alloc(st)
 	newCap := x.freshConst(st, "acap", SInt)
 	x.assume(st, And(Ge(newCap, newLen), Le(newCap, IntLitBig(maxAddr))), "append-cap")
@@ -670,7 +679,15 @@ func (x *Exec) iteVal(st *State, c *Term, a, b *Val, t types.Type) *Val {
 	lb := x.valLeaves(st, b, t)
 	out := make([]*Term, len(la))
 	for i := range la {
-		out[i] = x.bind(st, Ite(c, la[i], lb[i]), "ite")
+		t := Ite(c, la[i], lb[i])
+		if t.op == "ite" && x.inQuant == 0 {
+			// always name a conditional value: ite terms cannot occur in quantifier triggers
+			nc := x.freshConst(st, "ite", t.sort)
+			x.assume(st, app(SBool, "=", nc, t), "def")
+			nc.lo, nc.hi = t.lo, t.hi
+			t = nc
+		}
+		out[i] = t
 	}
 	v, _ := x.leavesVal(t, out)
 	return v
